@@ -36,18 +36,25 @@ import polys, openpaths
 META = dict(
     text=("Coq-defined exact specification of open-path clipping (rational crossing parameters of every open segment with every "
           "closed edge, pieces classified by the winding-number table open_in_result at exact rational points, maximal kept runs, "
-          "exact 1.5/3-unit tolerance tests by squaring, integer enclosures of lengths) with machine-checked theorems: the table "
-          "equals the property text, the computed crossing parameters are exactly the sign changes of the closed edge's cross "
-          "product along the segment, pieces partition [0,1], the interval-cover test and the convexity argument behind the "
-          "segment tests are sound; plus (added by the integrator) the sweep-line toggle logic for all event histories.  The "
-          "extracted specification is compared with Clipper64::Execute (paths and polytree, 16 rule combinations, two precision "
-          "builds, 7 coordinate regimes) on generated general-position inputs: every solution vertex/segment within 1.5 of one "
-          "subject segment, kept runs covered and dropped runs uncovered outside 3 units of a cut, length within 3 units per cut, "
-          "closed solution unchanged by the open subjects, tree and paths execution agree."),
+          "exact 1.5/3-unit tolerance tests by squaring, integer enclosures of lengths) with machine-checked theorems about it: the "
+          "table equals the property text (C05_open_in_result_spec); a crossing parameter lies strictly inside the open segment and "
+          "the point at it is exactly on the closed edge's line (C05_crossing_parameter); the pieces start at 0, end at 1 and are "
+          "linked (C05_pieces_partition); the interval-cover test behind 'kept run covered' is sound (C05_cover_test_sound); the "
+          "hypothesis general_position_C05 is general position of the whole input, open and closed edges alike, and a polyline "
+          "folding back on itself is outside it (C05_hypothesis, C05_foldback_outside_hypothesis); plus (added by the integrator) "
+          "the sweep-line toggle logic for all event histories.  The extracted specification is compared with Clipper64::Execute "
+          "(paths and polytree, 16 rule combinations, two precision builds, 7 coordinate regimes within the library's coordinate "
+          "domain) on generated general-position inputs: every solution vertex/segment within 1.5 of one subject segment, kept runs "
+          "covered and dropped runs uncovered outside 3 units of a cut, length within 3 units per cut, closed solution unchanged by "
+          "the open subjects, tree and paths execution agree."),
     note=("Trusted: Coq kernel; extraction; OCaml/python glue; C++ harness; generators.  Not proved: constancy of the winding number "
-          "inside a piece (checked at 3 interior points of every piece of every case instead), and everything geometric inside the "
-          "engine (cut positions, rounding, joining) — validated against the exact specification, not proved."),
+          "inside a piece (checked at 3 interior points of every piece of every case instead); the convexity argument that reduces "
+          "'segment within 1.5' to its two end points; the soundness of the margin and length-enclosure arithmetic; and everything "
+          "geometric inside the engine (cut positions, rounding, joining) — validated against the exact specification, not proved.  "
+          "On coordinates >= 2^53 the property fails (binary64 cut points; known finding open.cut-inexact@beyond-2^53); the key of "
+          "such a failure is selected by a paper forward-error bound, not a theorem."),
     technique='Coq specification oracle + soundness lemmas for its checker + API/specification correspondence (SPEC+O)',
+    category='proof',
 )
 
 CT = {1: 'Intersection', 2: 'Union', 3: 'Difference', 4: 'Xor'}
@@ -112,8 +119,10 @@ def beyond53(case):
 def relaxed_tols(case):
     """the property's tolerances widened by what binary64 rounding of the cut points of this input can explain
     (classification only: a failure beyond 2^53 is a violation either way, this decides its key)"""
-    D = openpaths.rounding_bound(case['S'], case['C'], case['O'])
-    return (3 + 2 * D, 2, 3 + 2 * D)
+    if '_relaxed' not in case:
+        D = openpaths.rounding_bound(case['S'], case['C'], case['O'])
+        case['_relaxed'] = (3 + 2 * D, 2, 3 + 2 * D)
+    return case['_relaxed']
 
 
 def open_line(tols, c, sols):
@@ -416,7 +425,7 @@ def run(ctx):
         return
     oracle = vf.oracle_build('openclip')
     broken = not pr['ok']
-    n = 224 if ctx.quick else 4200
+    n = 560 if ctx.quick else 4200
     if broken:
         n *= 3      # search budget after a proof break
     corpus = load_corpus()
